@@ -96,6 +96,31 @@ def grammar_cases(rnd, n):
     return out
 
 
+def long_concatenations(rnd):
+    """arguments of many +-joined quoted pieces with distinct texts (counts around 16, 32, 64), both quote styles, all layouts"""
+    out = []
+    for n in (2, 3, 7, 8, 9, 15, 16, 17, 18, 31, 32, 33, 34, 48, 63, 64, 65, 100):
+        for style in ("dq", "sq", "mixed", "empty-mixed"):
+            pieces = []
+            for i in range(n):
+                body = "" if (style == "empty-mixed" and i % 3 == 0) else "p%d." % i
+                q = '"' if style == "dq" or (style != "sq" and i % 2 == 0) else "'"
+                pieces.append(q + body + q)
+            for sep in ("+", " + ", "\n+\n", "/*c*/+//c\n", "\t+ ", None):
+                joined = pieces[0]
+                for pc in pieces[1:]:
+                    sp = sep if sep is not None else rnd.choice([" + ", "+", "\n\t+\n", " /* é */ + ", "+ // x\n"])
+                    joined += sp + pc
+                for kw, tail in (("a", ";"), ("pattern", " { b c; }"), ("x:y", ";")):
+                    out.append("%s %s%s" % (kw, joined, tail))
+                out.append("k { l %s; m %s; }" % (joined, joined))
+            # a piece missing its + in the middle, a doubled +, a trailing +
+            out.append("a " + " + ".join(pieces[:n // 2]) + " " + " + ".join(pieces[n // 2:]) + ";")
+            out.append("a " + " + ".join(pieces) + " + ;")
+            out.append("a " + " + + ".join(pieces) + ";")
+    return out
+
+
 def malformed_cases(rnd, n):
     out = []
     for f in c16.FAULTS:
@@ -283,6 +308,7 @@ def run(res, tier, seed, proof):
         T.run("deep-nesting", c16.deep_texts(c16.DEPTHS[:8]) + c16.deep_texts(c16.DEPTHS[8:] + [2048], simple), shards=lib.NCPU)
         T.run("deep-nesting:reader-only", [o * d + "b;" + "}" * d for d in c16.DEPTHS[8:] for o in dq]
               + c16.deep_texts(c16.DEEP_DEPTHS, c16.DEEP_OPEN_NODQ), model=False, shards=lib.NCPU)
+    T.run_chunked("long-concatenations", long_concatenations(rnd))
     T.run_chunked("multiline-grid", multiline_grid(24))
     T.run_chunked("grammar-directed", grammar_cases(rnd, 3000 if quick else 60000))
     T.run_chunked("malformed", malformed_cases(rnd, 300 if quick else 6000))
